@@ -60,6 +60,28 @@ def to_py(j):
     return {e[0]: to_py(e[1]) for e in j["kv"]}
 
 
+def none_without_default(obj, message: str) -> bool:
+    """Selector of F41: every argument the constructor misses is a field WITHOUT a default that holds None (the
+    None-filtering factory dropped its key), here or in a nested model."""
+    import dataclasses
+    import re
+
+    missing = set(re.findall(r"'(\w+)'", message))
+
+    def walk(o):
+        if dataclasses.is_dataclass(o) and not isinstance(o, type):
+            names = {f.name for f in dataclasses.fields(o)
+                     if f.default is dataclasses.MISSING and f.default_factory is dataclasses.MISSING and getattr(o, f.name) is None}
+            if missing and missing <= names and type(o).__name__ in message:
+                return True
+            return any(walk(getattr(o, f.name)) for f in dataclasses.fields(o))
+        if isinstance(o, (list, tuple)):
+            return any(walk(x) for x in o)
+        return False
+
+    return walk(obj)
+
+
 def roundtrip(ctx, obj, clazz, xctx, info, spec_enc=None, spec_encf=None):
     for fname, factory in (("dict", dict), ("filter-none", DictFactory.FILTER_NONE)):
         try:
@@ -85,6 +107,8 @@ def roundtrip(ctx, obj, clazz, xctx, info, spec_enc=None, spec_encf=None):
                 back = DictDecoder(context=xctx).decode(data, clazz)
             except Exception as ex:  # noqa: BLE001
                 tags = info.get("finding_tags", []) if fname == "filter-none" else []
+                if fname == "filter-none" and type(ex).__name__ == "ParserError" and "missing" in str(ex) and none_without_default(obj, str(ex)):
+                    tags = tags + ["F41"]
                 ctx.violation(f"{via} ({fname}) raised {type(ex).__name__}: {ex}", {**info, "enc": repr(enc)[:800], "finding_tags": tags})
                 continue
             if not _eq(back, obj):
@@ -137,7 +161,7 @@ def run(ctx):
     ctx.extra["tlc_cases_replayed"] = len(seen)
     xctx = XmlContext()
     # (Holder has Base-typed fields holding Derived instances: not representable without a type marker)
-    roots = [zoo.Leaf, zoo.Item, zoo.QNames, zoo.Prims, zoo.Seq, zoo.Compound, zoo.UnionModels, zoo.UnionEl]
+    roots = [zoo.Leaf, zoo.Item, zoo.QNames, zoo.Prims, zoo.Seq, zoo.Compound, zoo.UnionModels, zoo.UnionEl, zoo.ReqNil]
     for k, obj in enumerate(zoo.instances(ctx.seed + 4, ctx.pick(300, 10**7), roots=roots)):
         ctx.case(("zoo-dict", k))
         roundtrip(ctx, obj, type(obj), xctx, {"model": type(obj).__name__, "obj": repr(obj)[:1200], "finding_tags": zoo_tags(obj)})
